@@ -319,6 +319,22 @@ def api_init(rng, T, recorded=None):
             "readable": {c["id"]: [f["name"] for f in c["fns"] if f["get"]] for c in T["classes"]}}
 
 
+def api_log(rng, T):
+    """C20 flavour: the log as the YncaApi object hands it out, on an object that may have been used for connection_check() before"""
+    spec = api_init(rng, T)
+    present = spec["present"][:2]
+    spec["present"] = present
+    spec["device"]["avail"] = {s: "Ready" for s in present}
+    spec["device"]["table"] = device_table(rng, T, ["SYS"] + present, p_answer=0.5)
+    spec["device"]["latency"] = rng.choice([0.0, 0.02, 0.06])
+    spec["device"].pop("swallow_first", None)
+    spec["device"]["model"] = "RX-V473"
+    spec["log_size"] = rng.choice([1, 3, 10, 40, 400])
+    spec["check_first"] = rng.choice([0, 1, 1, 2])
+    spec["after"] = [["snap"], ["send_raw", "@MAIN:VOL=?"], ["sleep", rng.choice([0.05, 0.5, 31.0])], ["snap"], ["close"]]
+    return spec
+
+
 def api_init_fault(rng, T, total_replies=None, total_bytes=None):
     """C14 flavour: initialize() with a fault at a chosen position of the start-up dialogue"""
     spec = api_init(rng, T)
